@@ -84,7 +84,7 @@ def build(ctx):
     units = []
     # (Capacity, RoundUp): power-of-two buffer sizes carry the whole protocol proof; for exact (non-power-of-two) sizes only
     # wrapIndex and the wrap lemma are verified (a 64-bit remainder inside the rely/guarantee proof is out of reach here)
-    insts = [(2, True), (3, True), (16, True), (3, False), (6, False)] if ctx.tier == 'quick' else [(2, True), (3, True), (7, True), (16, True), (64, True), (3, False), (5, False), (6, False), (12, False)]
+    insts = [(2, True), (3, True), (16, True), (3, False), (6, False)] if ctx.tier == 'quick' else [(2, True), (3, True), (7, True), (16, True), (3, False), (5, False), (6, False), (12, False)]
     for cap, ru in insts:
         kb = probe(ctx, cap, ru)
         pow2 = (kb & (kb - 1)) == 0
